@@ -156,6 +156,15 @@ def gen(rng, tier, ctx):
             if (op.get("fs_faults") or op.get("interrupt")) and rng.random() < 0.8:
                 opl.append({"op": "cli", "dir": pth[0], "stem": pth[1], "ext": pth[2], "save": True,
                             "entropy": rng.randint(0, 2 ** 32)})
+    if rng.random() < 0.15:
+        # two solver runs at the same time, on two different input files, sharing outputs/
+        sa = "".join(rng.choice(STEM_ALPHABET) for _ in range(rng.randint(1, 8)))
+        sb = sa + rng.choice(["_1", "2", "_b", "x"])
+        da, db = rng.choice(DIRS), rng.choice(DIRS)
+        wa, wb = write((da, sa, ".py")), write((db, sb, ".py"))
+        opl += [wa, wb, {"op": "cli_pair", "sched": rng.randint(0, 2 ** 32), "p": rng.choice([0.1, 0.3, 0.3, 0.6]),
+                         "a": {"op": "cli", "dir": da, "stem": sa, "ext": ".py", "save": True, "entropy": rng.randint(0, 2 ** 32)},
+                         "b": {"op": "cli", "dir": db, "stem": sb, "ext": ".py", "save": rng.random() < 0.85, "entropy": rng.randint(0, 2 ** 32)}}]
     cfg = {"klass": klass}
     if rng.random() < 0.12:
         cfg["locale"] = rng.choice(["cp1252", "cp1252", "ascii", "latin-1"])     # default text encoding of the machine
@@ -366,6 +375,45 @@ def execute(spec, w, ctx):
             events.append([i_op, "plant", rel, op["kind"], len(text)])
             shapes.append("p" + op["kind"][0])
             continue
+        if kind == "cli_pair":
+            xa, xb = op["a"], op["b"]
+            (_pa, rel_a), (_pb, rel_b) = _path(w, xa), _path(w, xb)
+            if rel_a not in files or rel_b not in files or xa["stem"] == xb["stem"]:
+                continue
+            before = w.fs.snapshot()
+            cap_a, cap_b = {}, {}
+            cfg_p = {"step_cap": 20 * (files[rel_a]["steps"] + files[rel_b]["steps"]) + 400000}
+
+            def summ_b(out_):
+                s_ = ops.brief(out_)
+                s_["arg"] = cap_b.get("arg")
+                s_["ret"] = enc(cap_b["ret_obj"]) if "ret_obj" in cap_b else None
+                return s_
+            out_a, res_b = ops.concurrently(w, int(op.get("sched", 0)), float(op.get("p", 0.3)),
+                                            lambda: run_cli(xa, dict(cfg_p), cap_a), lambda: run_cli(xb, dict(cfg_p), cap_b), summ_b)
+            cap_b2 = {}
+            if res_b.get("arg") is not None:
+                cap_b2["arg"] = res_b["arg"]
+            if res_b.get("ret") is not None:
+                cap_b2["ret_obj"] = dec(res_b["ret"])
+            events.append([i_op, "cli_pair", rel_a, rel_b, out_a["status"], res_b["status"]])
+            shapes.append("P")
+            ta, tb = "outputs/%s.txt" % xa["stem"], "outputs/%s.txt" % xb["stem"]
+            v = _judge(i_op, xa, out_a, cap_a, before, w, files[rel_a]["games"], True, set(files), also_ok={tb})
+            if v is None:
+                v = _judge(i_op, xb, res_b, cap_b2, before, w, files[rel_b]["games"], True, set(files), also_ok={ta})
+            if v is not None:
+                v["msg"] = "two invocations at the same time (on %s and %s): %s" % (rel_a, rel_b, v["msg"])
+                res["violation"] = v
+                break
+            nontrivial = True
+            for x_ in (xa, xb):
+                if x_.get("save"):
+                    try:
+                        last_report[x_["stem"]] = h(w.fs.read_bytes("outputs/%s.txt" % x_["stem"]))
+                    except OSError:
+                        pass
+            continue
         if kind not in ("cli", "lib"):
             continue
         path, rel = _path(w, op)
@@ -443,7 +491,7 @@ def execute(spec, w, ctx):
     return res
 
 
-def _judge(i_op, op, out, cap, before, w, denoted, clean, inputs=()):
+def _judge(i_op, op, out, cap, before, w, denoted, clean, inputs=(), also_ok=()):
     """Invariants after one CLI invocation."""
     stem = op["stem"]
     target = "outputs/%s.txt" % stem
@@ -461,7 +509,7 @@ def _judge(i_op, op, out, cap, before, w, denoted, clean, inputs=()):
             if target not in after:
                 return viol("I16.2", i_op, "`-s` run exited normally but %s does not exist (changed: %s)" % (target, changed),
                             "report-missing" if clean else "silent-failure")
-            others = [c for c in changed if c != target]
+            others = [c for c in changed if c != target and c not in also_ok]
             clobbered = [c for c in others if _is_user_file(c, inputs)]
             if clobbered:
                 return viol("I16.2", i_op, "`-s` run changed files other than %s: %s" % (target, clobbered), "stray-write")
@@ -482,7 +530,7 @@ def _judge(i_op, op, out, cap, before, w, denoted, clean, inputs=()):
                 _time_probe(w, text, ret)
             return v
         else:
-            clobbered = [c for c in changed if _is_user_file(c, inputs)]
+            clobbered = [c for c in changed if _is_user_file(c, inputs) and c not in also_ok]
             if clobbered:
                 return viol("I16.2", i_op, "run without -s changed report/input files: %s" % clobbered, "stray-write")
             if changed:
